@@ -5,9 +5,11 @@ W=/var/tmp/seedrepo_$$
 rsync -a --exclude .git /repo/ $W/ || exit 9
 (cd $W && patch -p1 -s < $DIFF) || { echo "PATCH FAILED"; rm -rf $W; exit 9; }
 cd /verif
+cp evidence/$ID.json /var/tmp/evidence_$ID.$$.bak 2>/dev/null
 VERIF_REPO=$W VERIF_NO_CONFIRM=${VERIF_NO_CONFIRM:-} ./check $ID --tier $TIER > /var/tmp/seed_$ID.$$.out 2>&1
 rc=$?
 echo "rc=$rc $(grep -c '^VIOLATION' /var/tmp/seed_$ID.$$.out) violations; $(tail -1 /var/tmp/seed_$ID.$$.out | cut -c1-200)"
 grep -A2 '^VIOLATION' /var/tmp/seed_$ID.$$.out | head -6 | cut -c1-300
 rm -rf $W
+[ -f /var/tmp/evidence_$ID.$$.bak ] && mv /var/tmp/evidence_$ID.$$.bak evidence/$ID.json   # the evidence file must describe the unchanged tree
 exit $rc
